@@ -1,6 +1,7 @@
 import MakoModel.Codegen.CallsSpec
 import MakoModel.Codegen.CallsShape
 import MakoModel.Codegen.CallsEval
+import MakoModel.Codegen.CallsHoist
 /-!
 # C05 refinement – calling a callable
 
@@ -131,14 +132,15 @@ theorem lookup_bound {α} (x : Name) (bound a b : List (Name × α)) (h : lookup
     lookup x (bound ++ a) = lookup x (bound ++ b) := by
   rw [lookup_append, lookup_append, h]
 
-/-- the state in which the statements of a def start, after `push_frame` (and `push_buffer`) -/
+/-- the state in which the statements of a def start, after `push_frame` (and `push_buffer`) and the prologue -/
 theorem relc_def_start {l : Loc} {σ σS : St} {E : Spec.Env} {pend : Spec.SNS} (bound : List (Name × Str)) (clex : NS)
-    (mod W extra : Nat) (hR : RelW l σ E) (hN : NSRel σ.next pend) (hfr : σS.frames = σ.next :: σ.frames)
+    (mod W extra : Nat) {newF : List (Name × Clo)} {newD : List (Name × Spec.SFun)} (hF : ClosRel newF newD)
+    (hR : RelW l σ E) (hN : NSRel σ.next pend) (hfr : σS.frames = σ.next :: σ.frames)
     (hbl : σS.bufs.length = E.nb + extra) :
-    RelC ⟨bound ++ l.vars, l.funs, W, [], σ.next, clex, false, mod⟩ σS
-      ⟨bound ++ E.vars, E.defs, pend, [], E.nb + extra, E.nf + 1, mod⟩ :=
+    RelC ⟨bound ++ l.vars, newF ++ l.funs, W, [], σ.next, clex, false, mod⟩ σS
+      ⟨bound ++ E.vars, newD ++ E.defs, pend, [], E.nb + extra, E.nf + 1, mod⟩ :=
   ⟨fun x => lookup_bound x bound _ _ (hR.vars x), ⟨σS.loops.map (·.index), by simp⟩, hbl, by simp [hfr, hR.nf],
-    hR.funs, rfl, ⟨σ.next, by simp [callerView, hfr], hN⟩, hN⟩
+    hF.append hR.funs, rfl, ⟨σ.next, by simp [callerView, hfr], hN⟩, hN⟩
 
 /-- the state in which the statements of the `body()` of a `<%call>` start -/
 theorem relc_body_start {l : Loc} {σ σS : St} {E : Spec.Env} {lexS : Spec.SNS} (bound : List (Name × Str)) (clex : NS)
@@ -172,21 +174,30 @@ theorem rc_invoke (n : Nat) (ih : ∀ m, m < n + 1 → RC ts k m) : InvokeRef ts
     · rw [h, hnS]
     · exact h
   cases hfr with
-  | def_ s ps fl body own mod kind hk hc hg =>
+  | def_ s ps fl body own mod kind hk hc hnd hg =>
     simp only at hmod hbody
     subst hmod
     refine invoke_fin ts k (sf := ⟨ps, fl, body, kind, cmod⟩) rfl rfl hc hb he hr ?_
     intro bound σ1 o l3 σ2 hz hb1 hf1 hn1 hid1 hex hto
     have hσ1 : StOK σ1 := ⟨by rw [hf1]; exact hσ.frames, by rw [hn1]; exact hσ.next⟩
-    have hH : isSkips (hoist s body) = true := by
-      rcases hk with ⟨_, ht⟩ | ⟨_, ht⟩
-      · exact (nodefs_facts body (good_nodefs body s _ _ ht hg)).hoist s
-      · exact (good_top_hoist body s _ _ ht hg).1
+    -- the prologue: the closures of the scope (none for the template body, whose defs are module-level)
+    have pack : ∃ (P : Loc → Loc) (newF : List (Name × Clo)) (newD : List (Name × Spec.SFun)),
+        ProEff (progOf ts k) (hoist s body) P ∧
+        (∀ lx : Loc, lx.useLex = false → lx.mod = cmod → P lx = { lx with funs := newF ++ lx.funs }) ∧
+        ClosRel newF newD ∧ (∀ p ∈ newF, FunOK p.2.fn ∧ NSOK p.2.lex) ∧
+        Spec.declared (kind == .main) cmod body = newD := by
+      rcases hk with ⟨rfl, ht, hbd⟩ | ⟨rfl, ht⟩
+      · refine ⟨hoistEff s body, hoistClos [] cmod s body, Spec.declared false cmod body,
+          exec_hoist _ body s _ _ ht hbd hg, ?_, hoist_closrel [] cmod body s _ _ ht hbd hg hnd,
+          hoistClos_ok NSOK_nil cmod s body, rfl⟩
+        intro lx h1 h2
+        simp [hoistEff, lexOf, h1, h2]
+      · exact ⟨id, [], [], proeff_skips _ (good_top_hoist body s _ _ ht hg).1, fun lx _ _ => (by simp),
+          fun x _ => (by simp [lookup, OptRel]), fun p hp => (by cases hp), (good_top_hoist body s _ _ ht hg).2.2 cmod⟩
+    obtain ⟨P, newF, newD, hH, hPeq, hFD, hFok, hdecl⟩ := pack
     have hinner : innerEnv ⟨ps, fl, body, kind, cmod⟩ lexS bound E pend =
-        ⟨bound ++ E.vars, E.defs, pend, [], E.nb + (if Spec.isBuffering fl then 1 else 0), E.nf + 1, cmod⟩ := by
-      rcases hk with ⟨rfl, ht⟩ | ⟨rfl, ht⟩
-      · simp [innerEnv, (nodefs_facts body (good_nodefs body s _ _ ht hg)).declared]
-      · simp [innerEnv, (good_top_hoist body s _ _ ht hg).2.2]
+        ⟨bound ++ E.vars, newD ++ E.defs, pend, [], E.nb + (if Spec.isBuffering fl then 1 else 0), E.nf + 1, cmod⟩ := by
+      rcases hk with ⟨rfl, _, _⟩ | ⟨rfl, _⟩ <;> simp [innerEnv, ← hdecl]
     rw [hinner]
     have hσS : StOK { σ1 with frames := σ1.next :: σ1.frames, next := [] } :=
       ⟨by intro f hf
@@ -194,8 +205,13 @@ theorem rc_invoke (n : Nat) (ih : ∀ m, m < n + 1 → RC ts k m) : InvokeRef ts
           · exact hσ1.next
           · exact hσ1.frames f h, NSOK_nil⟩
     have hN1 : NSRel σ1.next pend := by rw [hn1]; exact hN
-    have hlS : ∀ W, LocOK ⟨bound ++ l.vars, l.funs, W, [], σ1.next, clex, false, cmod⟩ :=
-      fun W => ⟨hl.funs, hσ1.next, hlex⟩
+    have hlS : ∀ W, LocOK ⟨bound ++ l.vars, newF ++ l.funs, W, [], σ1.next, clex, false, cmod⟩ := by
+      intro W
+      refine ⟨?_, hσ1.next, hlex⟩
+      intro p hp
+      rcases List.mem_append.mp hp with h | h
+      · exact hFok p h
+      · exact hl.funs p h
     have hfrS : ({ σ1 with frames := σ1.next :: σ1.frames, next := [] } : St).frames = σ.next :: σ.frames := by
       simp [hn1, hf1]
     by_cases hbuf : fl.buffered = true
@@ -208,8 +224,9 @@ theorem rc_invoke (n : Nat) (ih : ∀ m, m < n + 1 → RC ts k m) : InvokeRef ts
       have hib : Spec.isBuffering fl = true := by simp [Spec.isBuffering, hbuf]
       rw [hB] at hex
       obtain ⟨m, o1, l1, σb, hm, hS, hto1, hfin⟩ := core_buffered (progOf ts k) _ hH hex hto
+      rw [hPeq _ rfl rfl] at hS
       have hRS := relc_def_start (σS := { σ1 with frames := σ1.next :: σ1.frames, next := [], bufs := (σ1.nextId, []) :: σ1.bufs, nextId := σ1.nextId + 1 })
-            bound clex cmod σ1.nextId 1 hR hN
+            bound clex cmod σ1.nextId 1 hFD hR hN
           (by simp [hn1, hf1]) (by simp [hb1, hR.nb])
       rw [← hn1] at hRS
       obtain ⟨out, vars', hbS, evS, hret, hfS, hlS', hnS⟩ := runS m hm s body _ _ _ σ1.nextId [] (σ1.bufs)
@@ -276,7 +293,8 @@ theorem rc_invoke (n : Nat) (ih : ∀ m, m < n + 1 → RC ts k m) : InvokeRef ts
         have hib : Spec.isBuffering fl = false := by simp [Spec.isBuffering, hbuf', hc, hfnil]
         rw [hB] at hex
         obtain ⟨m, o1, l1, σb, hm, hS, hto1, hpop⟩ := core_plain (progOf ts k) hH (hb1.trans hb) hex hto
-        have hRS := relc_def_start (σS := { σ1 with frames := σ1.next :: σ1.frames, next := [] }) bound clex cmod i 0 hR hN
+        rw [hPeq _ rfl rfl] at hS
+        have hRS := relc_def_start (σS := { σ1 with frames := σ1.next :: σ1.frames, next := [] }) bound clex cmod i 0 hFD hR hN
             (by simp [hn1, hf1]) (by simp [hb1, hR.nb])
         rw [← hn1] at hRS
         obtain ⟨out, vars', hbS, evS, hret, hfS, hlS', hnS⟩ := runS m hm s body _ _ _ i top rest
@@ -314,8 +332,9 @@ theorem rc_invoke (n : Nat) (ih : ∀ m, m < n + 1 → RC ts k m) : InvokeRef ts
         have hib : Spec.isBuffering fl = true := by simp [Spec.isBuffering, hfne]
         rw [hB] at hex
         obtain ⟨m, o1, l1, σb, hm, hS, hto1, hfin⟩ := core_filtered (progOf ts k) _ hH hex hto
+        rw [hPeq _ rfl rfl] at hS
         have hRS := relc_def_start (σS := { σ1 with frames := σ1.next :: σ1.frames, next := [], bufs := (σ1.nextId, []) :: σ1.bufs, nextId := σ1.nextId + 1 })
-            bound clex cmod σ1.nextId 1 hR hN
+            bound clex cmod σ1.nextId 1 hFD hR hN
             (by simp [hn1, hf1]) (by simp [hb1, hR.nb])
         rw [← hn1] at hRS
         obtain ⟨out, vars', hbS, evS, hret, hfS, hlS', hnS⟩ := runS m hm s body _ _ _ σ1.nextId [] (σ1.bufs)
@@ -372,19 +391,19 @@ theorem rc_invoke (n : Nat) (ih : ∀ m, m < n + 1 → RC ts k m) : InvokeRef ts
             subst hv
             obtain ⟨rfl, rfl⟩ := hmatch
             simp [coreRes, conv, hfc, hb3, hf3, hl3, hn3, convO]
-  | body s args body own mod hs hg =>
+  | body s args body own mod hs hsb hg =>
     simp only at hmod hbody
     subst hmod
     obtain ⟨hL, hn0⟩ := hbody trivial
     refine invoke_fin ts k (sf := ⟨args, noFlags, body, .body, cmod⟩) (fl := noFlags) rfl rfl rfl hb he hr ?_
     intro bound σ1 o l3 σ2 hz hb1 hf1 hn1 hid1 hex hto
     have hσ1 : StOK σ1 := ⟨by rw [hf1]; exact hσ.frames, by rw [hn1]; exact hσ.next⟩
-    have hnd := nodefs_facts body (good_nodefs body s _ _ hs hg)
+    have hnd := nodefs_facts body (good_nodefs body s _ _ hs hsb hg)
     have hinner : innerEnv ⟨args, noFlags, body, .body, cmod⟩ lexS bound E pend =
         ⟨bound ++ E.vars, E.defs, lexS, [], E.nb, E.nf, cmod⟩ := by
       simp [innerEnv, hnd.declared, Spec.isBuffering, noFlags]
     rw [hinner]
-    obtain ⟨m, o1, hm, hS, hto1, ho⟩ := core_bare (progOf ts k) (hnd.bodyHoist s) (hb1.trans hb) hex hto
+    obtain ⟨m, o1, hm, hS, hto1, ho⟩ := core_bare (progOf ts k) (proeff_skips _ (hnd.bodyHoist s)) (hb1.trans hb) hex hto
     have hRS := relc_body_start (σS := σ1) bound clex cmod i hR hL hf1 (by rw [hb1]; exact hR.nb)
     obtain ⟨out, vars', hbS, evS, hret, hfS, hlS', hnS⟩ := runS m hm s body false _ σ1 i top rest _ o1 l3 σ2 hg hRS
       (hn1.trans hn0) ⟨hl.funs, hlex, hlex⟩ hσ1 (hb1.trans hb) rfl hS hto1
